@@ -8,7 +8,7 @@ against an independent Miller-Rabin, bit lengths, p % 4 and the order of w.
 """
 import types
 from lib.core import zlit, natlit, blit
-from props.c25 import TapeRandom, tape_val, o_is_prime, call
+from props.c25 import TapeRandom, tape_val, o_is_prime, call, eval_retry
 
 MANIFEST = {
     'text': 'Coq theorems over a Gallina model of find_prime_root/_pfield, relative to the primality oracle accepting only '
@@ -227,7 +227,7 @@ def run(ctx):
         chunk = ctx.n(12, 6)
         nch = len(exprs) // chunk + 1
         perm = sorted(range(len(exprs)), key=lambda i: (i % nch, i))      # spread the expensive (large l) cases over chunks
-        out = ctx.coq_eval(['MPyC.Gmpy', 'MPyC.PrimeRoot'], [exprs[i] for i in perm], chunk=chunk, jobs=14, timeout=170)
+        out = eval_retry(ctx, ['MPyC.Gmpy', 'MPyC.PrimeRoot'], [exprs[i] for i in perm], chunk=chunk, jobs=14)
         res = [None] * len(exprs)
         for i, v in zip(perm, out):
             res[i] = v
